@@ -113,16 +113,22 @@ class CovergroupModel(FieldCompositeModel):
         print("get_inst_coverage: %s" % self.coverage_calc_valid)
         if not self.coverage_calc_valid:
             self.coverage = 0.0
+            total_weight = 0
+            # Coverpoints and crosses contribute according to their weight
             for cp in self.coverpoint_l:
-                self.coverage += cp.get_coverage()
+                self.coverage += cp.get_coverage() * cp.options.weight
+                total_weight += cp.options.weight
             for cp in self.cross_l:
-                self.coverage += cp.get_coverage()
-            
+                self.coverage += cp.get_coverage() * cp.options.weight
+                total_weight += cp.options.weight
+                
             if (len(self.coverpoint_l)+len(self.cross_l)) == 0:
                 self.coverage = 100.0 # vacuously covered
-            else:
-                self.coverage /= (len(self.coverpoint_l) + len(self.cross_l))
+            elif total_weight > 0:
+                self.coverage /= total_weight
                 self.coverage = round(self.coverage, 4)
+            else:
+                self.coverage = 0.0
             self.coverage_calc_valid = True
             
         return self.coverage        
